@@ -127,11 +127,13 @@ def run(ctx):
     ns = len(ctx.suite_names)
     # per suite: 1 + 3 + 8 + (8*3 + 4) + 2 + 1
     rep.floor('R17.2', 'random quantities established', n_q, ns * 40)
+    from rules import profile
+    profile.check(ctx, rep, 'R17.P', ['creg_start', 'clog_start', 'creg_finish', 'slog_start', 'setup_new', 'setup_new_with_key'])
     return rep
 
 
 def check_distinct(rep, sn, which, p, qs, w):
-    qs = [q for q in qs if q is not None]
+    qs = [q for q in qs if q is not None and is_rng_draw(q)]
     idx = [q[2][1] for q in qs]
     rep.ob('R17.3', '%s: distinct quantities use distinct draws' % which, len(set(idx)) == len(idx), 'draw indices %s' % [show(i) for i in idx], w, sn)
     for e in draws_on_path(p):
